@@ -118,7 +118,7 @@ func init() {
 		"fd-number-reused", "canary-grabbed", "close-sent-RST")
 	props["C05"] = simProp("same runs as C03/C04 with the executing task recorded for every callback, runnable and kernel call: one task per connection for life, no overlapping callbacks on one loop (nested OnClose from the handler's own call is legal), every read/write/epoll_ctl/close on a connection's descriptor issued by its loop's task, no panic from any documented concurrency-safe call made at arbitrary moments; memory-level data races are NOT decided (see level_note);"+sig,
 		"async-executed")
-	props["C06"] = simProp("whole-engine runs with the shutdown source (Engine.Stop, gnet.Stop, Shutdown action from OnBoot/OnOpen/OnTraffic/OnClose/OnTick) and moment (any scheduler step: mid-accept, mid-read, queued async tasks, concurrent second Stop) drawn from the seed; Run returns nil within the drain bound (hang = quiescent without return), every opened connection got OnClose before, OnShutdown exactly once, no callback afterwards during a post-mortem phase in which timers keep firing; a task that repeats one EAGAIN-answered call 500 times without returning to the poller is a busy retry: the shutdown is requested and must still complete (C06/spin otherwise); non-trivial = connections were open;"+sig,
+	props["C06"] = simProp("whole-engine runs with the shutdown source (Engine.Stop, gnet.Stop, Shutdown action from OnBoot/OnOpen/OnTraffic/OnClose/OnTick) and moment (any scheduler step: mid-accept, mid-read, queued async tasks, concurrent second Stop) drawn from the seed; Run returns nil within the drain bound (hang = quiescent without return), every opened connection got OnClose before, OnShutdown exactly once, no callback afterwards during a post-mortem phase in which timers keep firing; a task that repeats one EAGAIN-answered call 500 times without returning to the poller is a busy retry: the shutdown is requested and must still complete (C06/spin otherwise); in one plan in thirty 3-5 application goroutines keep issuing AsyncWrite on one connection until Run returns, and Run must return within 25000 scheduler decisions of the stop request (C06/hang-under-load; the +small flavour makes the queue thresholds reachable); non-trivial = connections were open;"+sig,
 		"accepted")
 	props["C18"] = simProp("per seeded scenario (3-4 connections with echo-like checked traffic in LT or ET, reactor or reuseport, tcp or unix, plus a late probe connection): one fault-free run recording the syscall trace by (site, descriptor class, call index), then one run per single fault (read/write/writev/epoll_ctl add,mod,del/close on stream descriptors, epoll_wait, accept4; call index 1..6 (12 thorough); errno from the realistic set of the site; stateful resets mark the socket too) on the same seed, i.e. the same schedule prefix; every fourth seed is a random plan with 1-2 random faults instead; oracle: no panic, C01/C02/C04/C05/C06/C07 monitors hold (victims exempt from completeness only), victim closed with an error and its descriptor released, probe served, retryable conditions (EAGAIN LT-only, EINTR, ECONNABORTED) leave everything as fault-free; evaluations counts every executed run; non-trivial/distinct = scenario enumerations (hash of all sub-run logs) and random-fault runs in which a fault fired with at least two connections open",
 		"faults-enumerated", "scenarios-enumerated-completely")
@@ -131,7 +131,7 @@ func init() {
 	props["C14"].variantsQ = []string{"default", "gc_opt"}
 	// build flavour +small (3 requests per loop round, urgent-queue threshold 8, 4 iovecs per
 	// writev, 2-event lists): the thresholds of the poller and of the write path are reachable
-	for _, id := range []string{"C02", "C03"} {
+	for _, id := range []string{"C02", "C03", "C06"} {
 		props[id].variantsQ = []string{"default", "default+small", "poll_opt"}
 		props[id].variantsT = []string{"default", "default+small", "poll_opt", "poll_opt+small", "gc_opt", "poll_opt+gc_opt"}
 	}
